@@ -5,6 +5,12 @@ mkdir -p /verif/seeded/$S
 cp /tmp/seeds/$S/patch.diff /tmp/seeds/$S/meta.json /tmp/seeds/$S/confirm.log /verif/seeded/$S/ 2>/dev/null
 cp /tmp/seeds/$S/*_test.go /tmp/seeds/$S/demo.sh /verif/seeded/$S/ 2>/dev/null
 OUT=$(LINES_OUT=400 /verif/try_seed_wt.sh /verif/seeded/$S $P quick 2>&1)
+if echo "$OUT" | grep -q "PATCH DOES NOT APPLY"; then
+  # a later fix: commit touched the same lines: evaluate on the commit the seed was written against
+  OUT=$(BASE=${SEED_BASE:-35f2dd2} LINES_OUT=400 /verif/try_seed_wt.sh /verif/seeded/$S $P quick 2>&1)
+  OUT="NOTE: patch no longer applies to HEAD; evaluated on ${SEED_BASE:-35f2dd2}
+$OUT"
+fi
 echo "$OUT" | grep "^  rule=\|^VIOLATION\|^NOTE\|^NEW-VIOL" | cut -c1-300 > /verif/seeded/$S/check_output.txt
 echo "$OUT" | tail -2 >> /verif/seeded/$S/check_output.txt
 if echo "$OUT" | grep -q "^NEW-VIOLATIONS"; then N=$(echo "$OUT" | grep "^NEW-VIOLATIONS" | awk '{print $2}'); else N=$(echo "$OUT" | grep -c "^VIOLATION"); fi
